@@ -88,7 +88,7 @@ def check_results(res, sa, period_format="vtl"):
     return list(uniq.items())
 
 
-def evaluate(part, src, run_kw, sa_kw, labels, fmt="vtl"):
+def evaluate(part, src, run_kw, sa_kw, labels, fmt="vtl", extra=None):
     from vtlengine import run, semantic_analysis
     try:
         res = run(**run_kw)
@@ -106,7 +106,7 @@ def evaluate(part, src, run_kw, sa_kw, labels, fmt="vtl"):
     part.case(core.fingerprint([src, run_kw["script"], fmt]), nt, sample=dict(source=src, script=run_kw["script"][:300], results=sorted(res)) if nt and len(part.samples) < 3 else None,
               labels=labels + ["results=%d" % min(len(res), 5)])
     for key, what in check_results(res, sa, fmt):
-        part.fail(key, dict(source=src, script=run_kw["script"], format=fmt), what)
+        part.fail(key, dict(source=src, script=run_kw["script"], format=fmt, **(extra or {})), what)
 
 
 def work_corpus(ids, fmt_cycle):
@@ -149,6 +149,55 @@ def work_generated(seed, n):
         evaluate(part, "generated:graphs", dict(script=script, data_structures=S2, datapoints=dps2(), scalar_values={"sc_in": 4}, return_only_persistent=False),
                  dict(script=script, data_structures=S2), ["generated:graphs"])
     p2()
+
+    # generated structures: nested identifier sets, per-measure nullability flags, nulls only where declared nullable
+    from hypothesis import strategies as st
+    from verif import gen
+
+    @settings(**st_set)
+    @hypothesis.seed(seed + 2)
+    @given(st.data())
+    def p3(data):
+        ci = data.draw(gen.case_inputs(max_rows=6))
+        dss, dps = [], {}
+        for name, comps in ci["structs"].items():
+            cl = []
+            for n, (role, t) in comps.items():
+                nullable = None if role == "I" else data.draw(st.booleans())
+                cl.append(eng.comp(n, t, role, nullable))
+            rows = [{c["name"]: (r.get(c["name"]) if (r.get(c["name"]) is not None or c["nullable"]) else gen.POOL[c["type"]][1]) for c in cl} for r in ci["rows"][name]]
+            dss.append(eng.structure(name, cl)); dps[name] = eng.frame(cl, rows)
+        ir = data.draw(gen.ds_expr(ci, data.draw(st.integers(1, 2))))
+        if data.draw(st.booleans()):
+            ir = data.draw(gen.clause_chain(ir if ir[0] == "ds" else ("ds", sorted(ci["structs"])[0]), ci["structs"], data.draw(st.integers(1, 2))))
+        script = "R <- %s;" % gen.render_ds(ir)
+        S3 = eng.structures(*dss)
+        evaluate(part, "generated:structures", dict(script=script, data_structures=S3, datapoints=dps, return_only_persistent=False), dict(script=script, data_structures=S3),
+                 ["generated:structures", "ids_differ" if len({tuple(n for n, (r, t) in c.items() if r == "I") for c in ci["structs"].values()}) > 1 else "ids_equal"], extra=dict(structures=S3, rows={k: v.to_dict("records") for k, v in dps.items()}))
+    p3()
+
+    # Time_Period identifiers written in several documented spellings, with and without collisions after normalisation
+    SPELL = {"2020Q1": ["2020Q1", "2020-Q1"], "2020M3": ["2020M3", "2020-M03", "2020M03", "2020-03"], "2020A": ["2020", "2020A", "2020-A1"], "2020D15": ["2020D15", "2020-D015", "2020-01-15"],
+             "2020W5": ["2020W5", "2020-W05"], "2021Q1": ["2021Q1", "2021-Q1"], "2020S2": ["2020S2", "2020-S2"]}
+    compsT = [eng.comp("Id_1", "Integer", "I"), eng.comp("Id_t", "Time_Period", "I"), eng.comp("Me_1", "Number")]
+    ST = eng.structures(eng.structure("DS_T", compsT))
+    SCRIPTS_T = ["R <- DS_T;", "R <- DS_T * 2;", "R <- DS_T [calc Me_2 := Me_1 + 1];", "R <- DS_T [filter Me_1 > 0];", "R <- sum(DS_T group by Id_t);", "R <- DS_T + DS_T;", "R <- DS_T [keep Me_1];", "R <- max(DS_T group by Id_1);"]
+
+    @settings(**st_set)
+    @hypothesis.seed(seed + 3)
+    @given(st.lists(st.tuples(st.sampled_from([1, 2]), st.sampled_from(sorted(SPELL)), st.integers(0, 3)), min_size=1, max_size=5), st.sampled_from(SCRIPTS_T), st.sampled_from(["vtl", "sdmx_reporting", "natural"]))
+    def p4(cells, script, fmt):
+        rows, seen = [], set()
+        for i, (a, per, k) in enumerate(cells):
+            text = SPELL[per][k % len(SPELL[per])]
+            if (a, text) in seen:
+                continue
+            seen.add((a, text)); rows.append({"Id_1": a, "Id_t": text, "Me_1": float(i)})
+        canon = [(a, per) for a, per, k in cells]
+        collide = len(set((r["Id_1"], [p for p, sp in SPELL.items() if r["Id_t"] in sp][0]) for r in rows)) < len(rows)
+        evaluate(part, "generated:period_spellings", dict(script=script, data_structures=ST, datapoints={"DS_T": eng.frame(compsT, rows)}, return_only_persistent=False, time_period_output_format=fmt), dict(script=script, data_structures=ST),
+                 ["generated:period_spellings", "collision_after_normalisation" if collide else "no_collision"], fmt=fmt, extra=dict(structures=ST, rows={"DS_T": rows}))
+    p4()
     return part
 
 
@@ -174,12 +223,12 @@ def _dispatch(fname, args):
 
 def run(ctx):
     ctx.rule = ("cases: executable corpus scripts (time_period_output_format cycled over the 4 formats) + Hypothesis-generated scripts (literal/clause grammar of C24, "
-                "dependency graphs of C12); non-trivial = some returned dataset has >=1 row and >=2 components; distinct by (source, script, format)")
+                "dependency graphs of C12, dataset expressions and clause chains over generated structures with nested identifier sets and per-measure nullability, Time_Period identifiers in mixed spellings); non-trivial = some returned dataset has >=1 row and >=2 components; distinct by (source, script, format)")
     exe = corpus.executable_cases(max_s=2.0 if ctx.quick else None, include_nondet=True)
     if ctx.quick:
-        exe = corpus.rotate(exe, ctx.seed, 330)
+        exe = corpus.rotate(exe, ctx.seed, 200)
     ids = [c["id"] for c in exe]
-    n = 25 if ctx.quick else 1000
+    n = 15 if ctx.quick else 1000
     jobs = [("work_corpus", (ids[k::16], True)) for k in range(16)] + [("work_generated", (ctx.seed * 1009 + k, n)) for k in range(16)] + [("probe_known", ())]
     ctx.merge(core.pmap("checks.c10", "_dispatch", jobs, procs=16))
     ctx.assumptions = ["value conformance uses the documented output forms of docs/data_types.rst; an Integer cell may be an integral float (pandas float64 column with NaN)"]
@@ -193,6 +242,12 @@ def replay(ctx, path):
     if case["source"].startswith("generated:literals"):
         S, comps, rows = c24.gen_struct()
         evaluate(part, case["source"], dict(script=case["script"], data_structures=S, datapoints={"DS_1": eng.frame(comps, rows), "DS_2": eng.frame(comps, rows[:2])}, return_only_persistent=False), dict(script=case["script"], data_structures=S), [])
+    elif case["source"].startswith(("generated:structures", "generated:period_spellings")):
+        comps = {d["name"]: d["DataStructure"] for d in case["structures"]["datasets"]}
+        kw = dict(script=case["script"], data_structures=case["structures"], datapoints={n: eng.frame(comps[n], r) for n, r in case["rows"].items()}, return_only_persistent=False)
+        if case.get("format", "vtl") != "vtl":
+            kw["time_period_output_format"] = case["format"]
+        evaluate(part, case["source"], kw, dict(script=case["script"], data_structures=case["structures"]), [], case.get("format", "vtl"))
     elif case["source"].startswith("generated:graphs"):
         S2, dps2 = c12.gen_inputs()
         evaluate(part, case["source"], dict(script=case["script"], data_structures=S2, datapoints=dps2(), scalar_values={"sc_in": 4}, return_only_persistent=False), dict(script=case["script"], data_structures=S2), [])
